@@ -275,12 +275,15 @@ def jobs(tier):
                            mode="E/concolic-window", functions=tf, sample_every=13))
         if not quick or kind == "md5":
             a3 = args(3, False, discos=False)
+            a3[0] = Arg("boots", 1, 1)
             if quick:
-                a3[0], a3[1] = Arg("boots", 1, 1), Arg("t0", 1, 1)
+                a3[1] = Arg("t0", 1, 1)
             out.append(Job(f"history-{kind}-3ops", make_harness(kind, 3), a3, timeout=600 if quick else 1500,
                            mode="E/concolic-window", functions=tf, sample_every=29))
         if not quick:
-            out.append(Job(f"history-{kind}-3ops-reboots", make_harness(kind, 3, reboots=True), args(3, True, discos=False), timeout=1500,
+            a3r = args(3, True, discos=False)
+            a3r[0], a3r[1] = Arg("boots", 1, 1), Arg("t0", 1, 1)
+            out.append(Job(f"history-{kind}-3ops-reboots", make_harness(kind, 3, reboots=True), a3r, timeout=1500,
                            mode="E/concolic-window", functions=tf, sample_every=29))
     # an explicit context engine id (different from the agent's engine id) must not disturb the timeliness bookkeeping
     for kind in ("md5", "sha1priv") if not quick else ("md5",):
